@@ -18,8 +18,9 @@ SIG = {
     'ctr_ks': {'sort': 'bytes', 'uf': True, 'facts': ['len(result) == ite(n > 0, n, 0)']},
     # SP 800-38B / RFC 4493 AES-CMAC
     'cmac': {'sort': 'bytes', 'uf': True, 'facts': ['len(result) == 16']},
-    # RFC 7253 4.2/4.3: the full 16-byte Tag of OCB-ENCRYPT for the cipher keyed with `key`, nonce formatting `offset0`
-    # (= Offset_0), associated data A and plaintext P
+    # RFC 7253 4.2/4.3: the full 16-byte Tag of OCB-ENCRYPT for associated data A and plaintext P; `ident` stands for what
+    # OCB_start_operation fixed: the keyed cipher and Offset_0.  ocb_crypt: the output of OCB_encrypt/OCB_decrypt for the blocks
+    # `data` that start `pos` bytes into the message
     'ocb_tag': {'sort': 'bytes', 'uf': True, 'facts': ['len(result) == 16']},
     'ocb_crypt': {'sort': 'bytes', 'uf': True, 'facts': ['len(result) == len(data)']},
     # keyed BLAKE2s-160 used only to compare two tags; assumed injective on its data for the drawn key (2^-160)
@@ -31,7 +32,7 @@ SIG = {
     'ccm_s0': 'bytes', 'ccm_fmt': 'bytes', 'ccm_tag': 'bytes', 'ccm_crypt': 'bytes', 'zpad': 'bytes', 'up16': 'int[nat]',
     'pow256': 'int[nat]', 'cat': 'bytes', 'ccm_a_start': 'int[nat]', 'ccm_a_end': 'int[nat]', 'ccm_p_start': 'int[nat]',
     's2v_dbl': 'bytes', 's2v_pad': 'bytes', 's2v_final': 'bytes', 's2v_step': 'bytes', 'siv_v': 'bytes', 'siv_ctr0': 'bytes', 'siv_crypt': 'bytes',
-    'kw_step': 'bytes', 'kw_unstep': 'bytes',
+    'kw_w': 'bytes', 'kw_w_inv': 'bytes', 'kwp_mli': 'int[nat]', 'kwp_ok': 'bool', 'kwp_aiv': 'bytes',
     'ocb_nonce': 'bytes', 'ocb_ktop_in': 'bytes', 'ocb_offset0': 'bytes', 'ocb_stretch': 'bytes',
 }
 
@@ -58,11 +59,11 @@ def cmac(key, msg):
     return uf_only()
 
 
-def ocb_tag(key, offset0, assoc, plain):
+def ocb_tag(ident, assoc, plain):
     return uf_only()
 
 
-def ocb_crypt(key, offset0, pos, data, dec):
+def ocb_crypt(ident, pos, data, dec):
     return uf_only()
 
 
@@ -235,3 +236,52 @@ def siv_ctr0(v):
 def siv_crypt(key2, v, data):
     """2.6/2.7: data xor the CTR key stream of K2 started at Q"""
     return xor(data, ctr_ks(key2, siv_ctr0(v), 0, len(data)))
+
+
+# ------------------------------------------------------------------------------------------------ KW / KWP, SP 800-38F (RFC 3394, RFC 5649)
+
+def kw_w(key, s):
+    """SP 800-38F Algorithm 1, W(S) for S = S_1 .. S_n (n >= 3 semiblocks of 8 bytes), s = 6(n-1) steps:
+    A^t = MSB64(CIPH_K(A^(t-1) || R_2^(t-1))) xor [t]_64;  R_i^t = R_(i+1)^(t-1);  R_n^t = LSB64(CIPH_K(A^(t-1) || R_2^(t-1)))"""
+    n = len(s) // 8
+    a = s[0:8]
+    r = [s[8 * i:8 * i + 8] for i in range(1, n)]
+    for t in range(1, 6 * (n - 1) + 1):
+        b = E(key, a + r[0])
+        a = xor(b[0:8], i2osp(t, 8))
+        r = r[1:] + [b[8:16]]
+    return a + b''.join(r)
+
+
+def kw_w_inv(key, c):
+    """SP 800-38F Algorithm 2, W^-1(C): for t = s .. 1:  A^(t-1) || R_2^(t-1) = CIPH^-1_K((A^t xor [t]_64) || R_n^t);  R_i^(t-1) = R_(i-1)^t"""
+    n = len(c) // 8
+    a = c[0:8]
+    r = [c[8 * i:8 * i + 8] for i in range(1, n)]
+    for k in range(0, 6 * (n - 1)):
+        t = 6 * (n - 1) - k
+        b = D(key, xor(a, i2osp(t, 8)) + r[len(r) - 1])
+        a = b[0:8]
+        r = [b[8:16]] + r[0:len(r) - 1]
+    return a + b''.join(r)
+
+
+def kwp_aiv(n):
+    """RFC 5649 3: alternative initial value = A65959A6 || 32-bit big-endian octet length of the key data"""
+    return b'\xa6\x59\x59\xa6' + i2osp(n, 4)
+
+
+def kwp_mli(s):
+    """the message length indicator: LSB(32, A) of the unwrapped string s = A || P_1 .. P_n"""
+    m = s[4:8]
+    return ((nth(m, 0) * 256 + nth(m, 1)) * 256 + nth(m, 2)) * 256 + nth(m, 3)
+
+
+def kwp_ok(s):
+    """RFC 5649 4.2 / 3: MSB(32,A) == A65959A6;  8(n-1) < MLI <= 8n for n = len(s)/8 - 1 padded blocks;  the last 8n - MLI octets are zero"""
+    if s[0:4] != b'\xa6\x59\x59\xa6':
+        return False
+    pad = len(s) - 8 - kwp_mli(s)
+    if pad < 0 or pad > 7:
+        return False
+    return s[len(s) - pad:] == rep(b'\x00', pad)
